@@ -8,7 +8,8 @@ Three kinds of cases, all 'custom' jobs:
            including exact ties, carries 99..9 -> 100..0, cancellations, zeros with odd exponents and large
            exponent gaps.  One job = one batch of operations.
  * 'runs'  K1 on real runs: one integer-tick configuration from harness/gen.py is run by the real engine
-             A  with exact=k and 10^-d-grid samples (ticks/D, D in {4, 10, 1000}; str(float) is the literal),
+             A  with exact=k and 10^-d-grid samples (ticks/D, D in {4, 10, 1000, 10^8}; str(float) is the literal, for the
+                10^-8 grid partly in exponent notation such as '1.25e-05'),
              B  as an ordinary float run on the dyadic grid ticks/4, where binary arithmetic is exact: the tick run,
              C  (D != 4 only) as a float run on the same non-dyadic values as A: reported, never judged.
            The extracted acceptor Acc/C20.v gets, per record, the discrete fields of A and B and per date/duration
@@ -118,9 +119,11 @@ def gen_op(rng, k):
 
 
 # ------------------------------------------------------------------ runs
-def remap_cfg(cfg, f, T):
-    """apply f to every time value (ticks) of a configuration; run horizon becomes T"""
+def remap_cfg(cfg, f, T, fs=None):
+    """apply f to every sampled time value (ticks) of a configuration and fs (default f) to the timetable values
+    (shift ends, slots, offsets); run horizon becomes T"""
     c = dict(cfg)
+    fs = fs or f
     mp = lambda l: None if l is None else [f(v) for v in l]
     for key in ('arr', 'svc', 'ren'):
         if c.get(key) is not None:
@@ -133,8 +136,8 @@ def remap_cfg(cfg, f, T):
             s = dict(s)
             for key in ('ends', 'slots'):
                 if key in s:
-                    s[key] = [f(v) for v in s[key]]
-            s['offset'] = f(s.get('offset', 0))
+                    s[key] = [fs(v) for v in s[key]]
+            s['offset'] = fs(s.get('offset', 0))
         sv.append(s)
     c['servers'] = sv
     c['run'] = ['time', T]
@@ -146,6 +149,10 @@ MODES = {
     'grid': (4, 2, 25, lambda t: t),                          # 0.25, 0.5, ... dyadic AND short decimals
     'tenth': (10, 1, 1, lambda t: t),                         # 0.1, 0.2, 0.3, ... not dyadic
     'third': (1000, 3, 1, lambda t: (t * 1000 + 1) // 3),     # 0.333, 0.667, 1.0, 1.333, ... (t/3 to 3 places)
+    # unit 10^-8: some samples are tiny, so that str(float) is in exponent notation ('1.25e-05', '3.75e-05'), the others are
+    # plain ('0.2', '0.60000625'); timetable values and the horizon are plain tenths
+    'micro': (10 ** 8, 8, 1, lambda t: (t * 1250 if t in (1, 3) else (t * 10 ** 7 + 625 if t == 6 else t * 10 ** 7)),
+              lambda t: t * 10 ** 7),
 }
 
 
@@ -295,7 +302,7 @@ class C20(Prop):
     num = 20
     rule = ('runs: one case = one integer-tick configuration (regions core incl. non-pre-emptive priorities, renege, sched, '
             'schedpre, slotted, preempt, all; PS switched off) executed by the real engine with exact=k (k random in 10..30) on the grid '
-            '1/4, 1/10 or 1/1000 and as the dyadic float (= tick) run, records compared by the extracted acceptor; non-trivial = '
+            '1/4, 1/10, 1/1000 or 10^-8 (tiny samples whose str() is in exponent notation) and as the dyadic float (= tick) run, records compared by the extracted acceptor; non-trivial = '
             '>= 20 records, >= 40 Decimal date/duration fields compared, and >= 1 pair of consecutive events at the same date '
             '(a coincidence that must survive exact arithmetic); distinct = distinct (configuration hash, mode, k). '
             'dec: one case = a batch of 250 decimal operations compared with the extracted model (counted in '
@@ -310,7 +317,7 @@ class C20(Prop):
                    111: 'arrival dates of a low-precision exact run are not the model\'s running sums add_k',
                    112: 'kernel (vm_compute) and extracted evaluation of the decimal model disagree'}
     level_text = 'Decimal.v theorems + T1 C20_sound; K1 conformance of real exact runs against the tick run; object differential vs decimal'
-    assumptions = ['exact-mode inputs are decimal literals: every sample s satisfies Decimal(str(s)) = ticks/10^d (generator grids 1/4, 1/10, 1/1000)',
+    assumptions = ['exact-mode inputs are decimal literals: every sample s satisfies Decimal(str(s)) = ticks/10^d (generator grids 1/4, 1/10, 1/1000, 10^-8)',
                    'the float run on the dyadic grid 1/4 is exact binary arithmetic and is used as the integer tick run',
                    'Schedule/Slotted shift dates are computed by the Schedule object in binary floating point; configurations whose '
                    'shift dates are not exact decimals within the horizon are discarded and counted (sched_float_inexact)',
@@ -329,7 +336,7 @@ class C20(Prop):
         i = 0
         for region, count in regs:
             for c in range(count):
-                mode = ('grid', 'tenth', 'grid', 'third', 'tenth')[i % 5]
+                mode = ('grid', 'tenth', 'micro', 'third', 'grid', 'micro', 'tenth')[i % 7]
                 js.append({'custom': 'runs', 'region': region, 'gseed': seed * 100003 + i, 'mode': mode,
                            'size': 'quick' if (tier == 'quick' or i % 4) else 'big'})
                 i += 1
@@ -522,13 +529,14 @@ class C20(Prop):
         cfg.pop('ps_thr', None)
         cfg.pop('tracker', None)
         cfg.pop('detector', None)
-        D, d, mult, f = MODES[job['mode']]
+        D, d, mult, f = MODES[job['mode']][:4]
+        fs = MODES[job['mode']][4] if len(MODES[job['mode']]) > 4 else f
         T = cfg['run'][1] if cfg['run'][0] == 'time' else 120
-        T2 = f(T)
+        T2 = fs(T)
         # the horizon is passed to the engine as a float: keep it an integer number of time units so that
         # "date < max_time" means the same in both runs
         T2 = ((T2 + D - 1) // D) * D
-        cfg = remap_cfg(cfg, f, T2)
+        cfg = remap_cfg(cfg, f, T2, fs)
         if job['mode'] == 'grid':
             assert T2 % 4 == 0
         return cfg, D, d, mult
@@ -583,6 +591,8 @@ class C20(Prop):
         import framework
         rng = random.Random('c20/k/%s/%d' % (job['region'], job['gseed']))
         k = job.get('k') or rng.choice([10, 11, 12, 14, 17, 20, 26, 28, 30, rng.randint(10, 30)])
+        if job['mode'] == 'micro' and not job.get('k'):
+            k = rng.randint(20, 30)     # dates need up to ~11 digits in units of 10^-8: no rounding at these precisions
         maxev = MAX_EVENTS[job.get('size', 'quick')]
         res = {'region': '%s/%s' % (job['region'], job['mode']), 'gseed': job['gseed'],
                'hash': '%s/%s/%d' % (framework.cfg_hash(cfg), job['mode'], k), 'exc': None, 'status': 'ok', 'nontrivial': False,
